@@ -51,13 +51,18 @@ def check(res):
             recs = [(s, d) for s, n, d in docs if n == "event" and d["descriptor"] == iuid]
             # what happened while the run was open (after its interruptions descriptor, before its stop)
             expected = []
+            seen_sus = set()
             for e in evs:
                 if not (idesc_seq < e.seq < stop_seq):
                     continue
                 if e.kind == "state" and e.d["new"] == "pausing":
                     expected.append("pause")
                 elif e.kind == "msg" and e.d["cmd"] == "_start_suspender":
-                    expected.append("suspend")
+                    # one record per suspension: a '_start_suspender' message that is executed again because
+                    # another interruption cut its first execution short is still the same suspension
+                    if e.d["mid"] not in seen_sus:
+                        seen_sus.add(e.d["mid"])
+                        expected.append("suspend")
                 elif e.kind == "call_begin" and e.d["api"] == "resume":
                     expected.append("resume")
             got = [d["data"]["interruption"] for _, d in recs]
